@@ -140,7 +140,8 @@ def cmd_summary():
         rows.append("| %s | %s | %s | %s | %s | %s |" % (
             name, m["property"], str(m.get("summary", "")).replace("|", "/").replace("\n", " ")[:230],
             str(m.get("needs", "")).replace("|", "/").replace("\n", " ")[:200],
-            ("caught (%s): %s" % (r.get("tier"), ", ".join(r.get("clauses", []))[:110])) if r.get("detected") else ("MISSED" if r else "not run"),
+            ("caught (%s): %s" % (r.get("tier"), ", ".join(r.get("clauses", []))[:110])) if r.get("detected") else
+            ("neutralised by a later repair (was caught before)" if m.get("neutralised") else ("MISSED" if r else "not run")),
             hist))
     out = ["# Seeded property-breaking changes (produced by independent sub-agents that saw only the property text)",
            "", "Each directory holds `patch.diff`, `demo.py` (passes on the clean tree, fails with the patch; confirmed by",
